@@ -66,7 +66,7 @@ CHECKS = {
  'C02': dict(
     design='DESIGN.md §5 C02',
     technique='TLA+ spec HaloFields.tla: TLC checks the field resolver as coded (normalisation, dependency closure, load order, temporary-column slot types, index columns) for every request sequence; every request replayed on the real loader and compared column-by-column with the fields=all load',
-    text='TLC evaluates the resolver model for every duplicate-free request sequence of <=2 (quick) / 3 (thorough) columns over a 17-column universe (one per dtype, shape and derivation class) x cleaned on/off x subsamples none/A/A+B: no request may fail, no requested column may be altered, dependencies load before dependants (the two original defects are rejected as controls). Every enumerated request (1455 quick / ~20k thorough) is loaded from a synthetic catalog: no exception, requested columns present, each bit-identical (dtype, shape, values) to the fields=all load, index columns present when subsamples are loaded; all/default/with-subsamples loads agree; the loader\'s dependency_info matches the model.',
+    text='TLC evaluates the resolver model for every duplicate-free request sequence of <=2 (quick) / 3 (thorough) columns over a 19-column universe (one per dtype, shape and derivation class) x cleaned on/off x subsamples none/A/A+B: no request may fail, no requested column may be altered, dependencies load before dependants (the two original defects are rejected as controls). Every enumerated request (1851 quick / ~28k thorough) is loaded from a synthetic catalog: no exception, requested columns present, each bit-identical (dtype, shape, values) to the fields=all load, index columns present when subsamples are loaded; all/default/with-subsamples loads agree; the loader\'s dependency_info matches the model.',
     note='Canonical value = the column in the fields=all load (its units are verified by C05). Passthrough excluded.'),
  'C05': dict(
     design='DESIGN.md §5 C05',
